@@ -52,9 +52,9 @@ INC = 'const IC = 2;\nstruct I { u8 x; };\n'
 TOKEN_RE = re.compile(r'//[^\n]*\n|/\*.*?\*/|[A-Za-z_][A-Za-z0-9_]*|0x[0-9a-fA-F]+|\d+|<<|>>|\.\.\.|"[^"]*"|\S', re.S)
 ALPHABET = ['struct', 'union', 'enum', 'typedef', 'const', 'u8', 'u64', 'bytes', 'float', 'X', 'F', 'A', 'undefined_name',
             '{', '}', '[', ']', '<', '>', ';', ':', '=', ',', '*', '...', '@', '1', '0', '-', '(', ')', '#', '"x"', '<<',
-            '0x', '4294967296', '$']
+            '0x', '65536', '$']
 ALPHABET_QUICK = ['struct', 'u8', 'bytes', 'X', 'undefined_name', '{', '}', '[', '<', '>', ';', ':', '=', '*', '...', '@',
-                  '1', '0', '-', '(', '#', '4294967296', '$']
+                  '1', '0', '-', '(', '#', '65536', '$']
 SHORT_ALPHABET = ['struct', 'union', 'X', 'u8', 'a', '{', '}', ';', '<', '>', '1', ':']
 
 
